@@ -523,6 +523,9 @@ class SFrame:
             return self.n == 0 or not self.cols
         if name == "copy":
             return Handler(lambda it_, *a, **k: self.copy(), "DataFrame.copy")
+        if name == "infer_objects":
+            # A2: dtypes are not modelled, so re-inferring them is a copy with the same cells and labels
+            return Handler(lambda it_, *a, **k: self.copy(), "DataFrame.infer_objects")
         if name == "sort_values":
             return Handler(self._sort_values, "DataFrame.sort_values")
         if name == "reset_index":
